@@ -242,6 +242,18 @@ def run(ctx):
             if not ok:
                 ctx.tie_broken("T3 writer program " + name, {"program": prog, "expected": "flock(LOCK_EX|LOCK_NB) … read(log) … one write / tmp+rename … flock(LOCK_UN), all writes inside"})
         ctx.tie("T3 writer programs", **progs)
+        # the same on a store whose lock file is missing: it is created in place (writerOK forbids giving the lock's name to another file:
+        # ErgoProofs C02_lock_file_keeps_its_identity)
+        for name, argv, stdin in [("new", ["--json", "new", "task"], b'{"title":"d"}'), ("claim", ["--json", "--agent", "k2", "claim"], None), ("compact", ["--json", "compact"], None)]:
+            try:
+                os.unlink(os.path.join(st.dir, "lock"))
+            except OSError:
+                pass
+            rc, _, _, steps = strace.run(st, argv, stdin)
+            sh = strace.shape(ctx.model, steps)
+            ctx.count(1, key=("T3-writer, lock file missing", name))
+            if rc == 0 and not sh["writer"]:
+                ctx.tie_broken("T3 writer program %s (lock file missing)" % name, {"program": strace.summarize(steps), "expected": "the lock file created in place, then the usual lock section"})
     finally:
         st.close()
     r = gen.Rng(ctx.seed * 1000003 + 2)
